@@ -69,6 +69,9 @@ def answerMds (fs : List (String × String)) : String :=
         let preTxt := if exact && !cpre.isExact then "INEXACT-" ++ cpre.show else cpre.show
         -- 2. (V, lam) is a top-d eigensystem of the MODEL's matrix
         let ce := certify B.get V.get lam.get scale εrel bracket
+        --    … and, for sizes up to `robustmax`, the extremality certificate that is sound for approximate eigenvectors
+        let robustMax := (get "robustmax" >>= String.toNat?).getD 0
+        let robTxt := if N ≤ robustMax && ce.ok then robustExtremal B.get V.get lam.get scale εrel else "skipped"
         -- 3. post-processing: sq j ≥ 0, sq j² = lam j, Y = V·diag sq
         --    `s j` is read off the embedding itself (ratio at the largest entry of column j of V); the contract is
         --    `s j ≥ 0 ∧ s j ² = max (lam j) 0` (the PSD factor keeps the positive part of the spectrum);
@@ -121,7 +124,7 @@ def answerMds (fs : List (String × String)) : String :=
           else "na"
         let nexact := (if cpre.isExact then 1 else 0) + (if cpost.isExact then 1 else 0)
         let napprox := (if cpre.isExact then 0 else 1) + (if cpost.isExact then 0 else 1) + 4
-        s!"pre={preTxt} eig={ce.text} post={postTxt} y={yTxt} dist={distTxt} cmp=exact:{nexact},approx:{napprox}"
+        s!"pre={preTxt} eig={ce.text} robust={robTxt} post={postTxt} y={yTxt} dist={distTxt} cmp=exact:{nexact},approx:{napprox}"
       | _, _, _, _ => "bad-observation"
   | _, _, _, _, _ => "bad-case"
 
